@@ -52,7 +52,8 @@ def parse_imp(s):
 
 
 def proj_progset(pg):
-    out = {"programs": {}, "covouts": {}, "pops": {k: (v["label"], v["type"]) for k, v in pg.pops.items()}, "pars": frozenset(pg.pars.keys())}
+    # the lists of available populations / parameters are context (taken from the databook / framework when a book is read), not book content
+    out = {"programs": {}, "covouts": {}}
     for code, p in pg.programs.items():
         out["programs"][code] = {
             "label": p.label,
@@ -280,7 +281,7 @@ def add_programs(draw, spec, sigma_choices, min_progs=1, max_progs=3):
     for a, b, what in spec["links"]:
         if what != ">":
             in_links.update(what)
-    cands = [p for p in spec["pars"] if not p.get("timed") and not p.get("deriv") and (p.get("fmt") != "number" or p["name"] in in_links)]
+    cands = [p for p in spec["pars"] if not p.get("timed") and not p.get("deriv") and (p.get("fmt") != "number" or p["name"] in in_links) and ":flow" not in (p.get("fn") or "")]
     if not cands:
         return False
     tgt = draw(st.lists(st.sampled_from([p["name"] for p in cands]), unique=True, min_size=1, max_size=min(3, len(cands))))
